@@ -366,6 +366,7 @@ def run_shard(desc, ctx):
                     colsv = [[k[l] for k in keys] for l in range(len(keys[0]))]
 
                     recur = rng.choice([0, 0, 2, 3])
+                    blank_at = rng.choice([None, None, None, 0, 1])     # one group value may be blank
 
                     def ren(vals, pre, lvl):
                         m = {}
@@ -373,7 +374,10 @@ def run_shard(desc, ctx):
                         for v in vals:
                             if v not in m:
                                 m[v] = len(m) % recur if recur else len(m)
-                            out.append(f"{pre}{lvl}{'v' if pre == 'G' else 'x'}{m[v]}")
+                            if pre == "G" and lvl == 0 and blank_at is not None and m[v] == blank_at:
+                                out.append("")
+                            else:
+                                out.append(f"{pre}{lvl}{'v' if pre == 'G' else 'x'}{m[v]}")
                         return out
                     if mode == "subline":
                         g = {"page_by": [], "subline_by": [ren(colsv[0], "SB", 0)]}
